@@ -348,7 +348,7 @@ pub fn run(opts: &Opts, out: &mut Emitter) {
         if r.chance(1, 3) {
             env.insert("other".into(), json!("x"));
         }
-        let (content, encoding, ver): (String, Value, String) = match if forced.is_some() { 5 } else if k % 3 == 0 { r.below(8) } else { 0 } {
+        let (content, encoding, ver): (String, Value, String) = match if forced.is_some() { 5 } else if k % 3 == 0 { r.below(9) } else { 0 } {
             1 => ("zz".into(), json!("hex"), version.to_string()),
             2 => (hx(&bytes), json!("base64"), version.to_string()),
             3 => (hx(&bytes[..bytes.len() / 2]), json!("hex"), version.to_string()),
@@ -372,6 +372,12 @@ pub fn run(opts: &Opts, out: &mut Emitter) {
             }
             6 => (b64(&bytes), json!("base64"), version.to_string()),
             7 => (format!("0x{}", hx(&bytes)), json!("hex"), version.to_string()),
+            // payloads of 0 to 9 bytes that are no IR at all, under both encodings
+            8 => {
+                let l = (k / 3) % 10;
+                let junk = r.bytes(l);
+                if k % 2 == 0 { (hx(&junk), json!("hex"), version.to_string()) } else { (b64(&junk), json!("base64"), version.to_string()) }
+            }
             _ => (hx(&bytes), json!("hex"), version.to_string()),
         };
         let with_env = !env.is_empty() || r.chance(1, 2);
